@@ -190,6 +190,41 @@ def mc_property(v, tier, seed, name, prof, fields=mc_suite.ALL_FIELDS, noids=Fal
                     if ns != int(sc) or nr != int(rc):
                         return (f"the trace carried by a state does not lead to it: {pp} has sent {sc} / received {rc} messages, its trace "
                                 f"records {ns} sends by it and {nr} deliveries to it; state: {l[:200]}")
+                # replay of the message part of the trace: every delivery, loss, corruption and duplication acts on a message that is
+                # in flight at that step, and what is left in flight at the end is exactly what the state holds as pending deliveries
+                inflight, bad_step = {}, None
+                for kd, a in ents:
+                    parts = a.split(",")
+                    if kd == "corr":
+                        if len(parts) != 6:
+                            inflight = None; break
+                        ko, kc = (parts[0] + "," + parts[1], parts[4], parts[5]), (parts[2] + "," + parts[3], parts[4], parts[5])
+                        if inflight.get(ko, 0) == 0:
+                            bad_step = f"corrupts message {ko[0]} from {ko[1]} to {ko[2]}"; break
+                        inflight[ko] -= 1; inflight[kc] = inflight.get(kc, 0) + 1
+                        continue
+                    if len(parts) < 4:
+                        inflight = None; break
+                    key = (",".join(parts[:-2]), parts[-2], parts[-1])
+                    if kd == "sent":
+                        inflight[key] = inflight.get(key, 0) + 1
+                    elif inflight.get(key, 0) == 0:
+                        bad_step = f"{ {'recv': 'delivers', 'drop': 'loses', 'dupl': 'duplicates'}[kd] } message {key[0]} from {key[1]} to {key[2]}"; break
+                    elif kd == "dupl":
+                        inflight[key] += 1
+                    else:
+                        inflight[key] -= 1
+                if bad_step:
+                    return (f"the trace carried by a state cannot be replayed: a step {bad_step}, which is not in flight at that point "
+                            f"(never produced, already consumed, or changed by a fault); state: {l[:160]}")
+                if inflight is not None and me is not None:
+                    pend = {}
+                    for tip, data, src, dst in re.findall(r"\d+:M\(([^,]+),(.*?),(p\d+),(p\d+),[NF]\d+\)", me.group(1)):
+                        pend[(tip + "," + data, src, dst)] = pend.get((tip + "," + data, src, dst), 0) + 1
+                    left = {k: n for k, n in inflight.items() if n > 0}
+                    if left != pend:
+                        return (f"replaying the trace carried by a state leaves {sum(left.values())} messages in flight, the state holds "
+                                f"{sum(pend.values())} pending deliveries, and they are not the same messages; state: {l[:160]}")
                 if not any(kd in ("dupl", "corr") for kd, _ in ents):
                     nsent = sum(1 for kd, _ in ents if kd == "sent")
                     ngone = sum(1 for kd, _ in ents if kd in ("recv", "drop"))
@@ -536,4 +571,21 @@ def gen_order_sensitive(rng, tier):
         if rng.random() < 0.5:
             lines.append(f"runfrom {rng.choice(['bfs', 'dfs'])} {rng.choice(['full', 'disabled'])} inv=none goal=noev prune=none collect=noev")
         out.append((f"os{i}", lines))
+    return out
+
+
+def gen_alt_goals(rng, tier):
+    """goal and prune predicates with two alternatives that become true in no particular order along an exploration: the states on
+    which only the first alternative holds are met after states on which only the second one holds, and the other way round
+    (three different messages to one receiver under message loss; goal "two reported or nothing left")"""
+    out = []
+    for i in range(10 if tier == "quick" else 150):
+        lines = ["refenum", "node n0", "node n1", "proc p0 n0 rec", "proc p1 n1"]
+        lines += ["rule p1 0 L:m0 1 S:m1:=a:p0 S:m2:=b:p0 S:m3:=c:p0", "rule p0 0 M:m1 0 L:m1:$", "rule p0 0 M:m2 0 L:m2:$", "rule p0 0 M:m3 0 L:m3:$"]
+        lines += ["cb net drop 1", "cb local p1 m0 =go"]
+        k = rng.choice([1, 2])
+        goal = rng.choice([f"out:p0:{k}|noev", f"noev|out:p0:{k}", f"out:p0:{k + 1}|out:p0:{k}|noev"])
+        prune = rng.choice(["none", "none", f"out:p0:3|st:p1:2"])
+        base = lines + [f"run dfs full inv=none goal={goal} prune={prune} collect=none"]
+        out.append((f"ag{i}", with_all_combos(base, [("dfs", "full"), ("bfs", "full"), ("dfs", "disabled"), ("bfs", "disabled")])))
     return out
